@@ -265,7 +265,7 @@ the proof instance `fieldScalar`; they are equal (`rat_eq_field`), so the runs t
 
 section examples
 
-private theorem rat_eq_field : (ratScalar : Scalar ℚ) = fieldScalar := by
+theorem rat_eq_field : (ratScalar : Scalar ℚ) = fieldScalar := by
   unfold ratScalar fieldScalar
   congr 1
   · funext x
